@@ -583,6 +583,14 @@ impl From<Vec<OrderedFloat<f64>>> for DataSection {
     }
 }
 
+fn keep_nulls<'a>(arg: &dyn Data<'a>, mut decoded: Box<Vec<i64>>) -> BoxedData<'a> {
+    if arg.get_type().is_nullable() {
+        decoded.make_nullable(arg.cast_ref_null_map())
+    } else {
+        decoded
+    }
+}
+
 fn decode<'a>(
     codec: &Codec,
     sections: &[&'a dyn Data<'a>],
@@ -599,7 +607,8 @@ fn decode<'a>(
                 let mut data = section_stack.pop().unwrap();
                 data.make_nullable(present.cast_ref_u8())
             }
-            CodecOp::Add(encoding_type, value) => match encoding_type {
+            // Add and ToI64 may follow Nullable (offset encoded nullable integers): keep the null map.
+            CodecOp::Add(encoding_type, value) => keep_nulls(&**arg0, match encoding_type {
                 EncodingType::U8 => Box::new(
                     arg0.cast_ref_u8()
                         .iter()
@@ -622,7 +631,7 @@ fn decode<'a>(
                     "Unsupported encoding type for CodecOp::Add: {:?}",
                     encoding_type
                 ),
-            },
+            }),
             CodecOp::Delta(encoding_type) => match encoding_type {
                 EncodingType::U8 => {
                     let mut decoded = Vec::with_capacity(arg0.len());
@@ -669,7 +678,7 @@ fn decode<'a>(
                     encoding_type
                 ),
             },
-            CodecOp::ToI64(encoding_type) => match encoding_type {
+            CodecOp::ToI64(encoding_type) => keep_nulls(&**arg0, match encoding_type {
                 EncodingType::U8 => Box::new(
                     arg0.cast_ref_u8()
                         .iter()
@@ -692,7 +701,7 @@ fn decode<'a>(
                     "Unsupported encoding type for CodecOp::ToI64: {:?}",
                     encoding_type
                 ),
-            },
+            }),
             CodecOp::PushDataSection(index) => {
                 let data_section = sections[*index].slice_box(0, sections[*index].len());
                 section_stack.push(data_section);
